@@ -110,7 +110,28 @@ def witness_D11():
     return None
 
 
-WITNESS = {"D1": witness_D1, "D5a": witness_D5a, "D8": witness_D8, "D9": witness_D9, "D11": witness_D11}
+def witness_D21():
+    wf = """
+version: 1.0
+tasks:
+  a: {action: core.noop, next: [{when: <% result() = 'x' %>, do: [j]}, {when: <% succeeded() %>, do: [b]}]}
+  b: {action: core.noop, next: [{when: <% failed() %>, do: [j]}]}
+  j: {join: all, action: core.noop}
+"""
+    c = _mk(wf)
+    _poll(c); _done(c, "a"); _poll(c); _done(c, "b", S.FAILED)
+    first = c.get_workflow_status()
+    c.request_workflow_rerun()
+    _poll(c); _done(c, "b", S.SUCCEEDED); _poll(c)
+    clean = _mk(wf)
+    _poll(clean); _done(clean, "a"); _poll(clean); _done(clean, "b", S.SUCCEEDED); _poll(clean)
+    if first == S.FAILED and c.get_workflow_status() != clean.get_workflow_status():
+        return ("b failed and staged the join j; after rerun b succeeds but the stale partially satisfied j stays staged: "
+                "the workflow ends %s, the clean run ends %s" % (c.get_workflow_status(), clean.get_workflow_status()))
+    return None
+
+
+WITNESS = {"D21": witness_D21, "D1": witness_D1, "D5a": witness_D5a, "D8": witness_D8, "D9": witness_D9, "D11": witness_D11}
 
 
 def reconfirm(known, prop):
@@ -196,11 +217,23 @@ def trig_empty_rerun(sess, upto=None):
             ready = [s for s in st["staged"] if s["ready"] and not s.get("completed")]
             act = [r for r in st["sequence"] if r.get("status") in
                    ("requested", "scheduled", "delayed", "running", "resuming", "pausing", "canceling", "paused", "pending")]
-            unset = [1 for s in st["staged"] for it in s.get("items", []) if it["status"] == "null"]
-            if not ready and not act and not unset:
+            if not ready and not act:
                 return True
     return False
 
 
-TRIGGERS = {"D1": trig_late_join_arrival, "D5a": trig_completed_without_terminal,
+def trig_rerun_of_transitioned(sess, upto=None):
+    """an accepted rerun re-executes a record whose first attempt already took a transition"""
+    for i, (op, obs) in enumerate(sess.trace):
+        if upto is not None and i > upto:
+            break
+        if op[0] == "rerun" and obs["raised"] is None:
+            st = obs["state"]["state"]
+            last = (st.get("reruns") or [[]])[-1]
+            if any(any(st["sequence"][k]["next"].values()) for k in last if k < len(st["sequence"])):
+                return True
+    return False
+
+
+TRIGGERS = {"D21": trig_rerun_of_transitioned, "D1": trig_late_join_arrival, "D5a": trig_completed_without_terminal,
             "D8": trig_rerun_of_command, "D9": trig_empty_rerun}
